@@ -129,6 +129,45 @@ fn term_long(tape: &[u32], st: &mut Stats) -> CaseResult {
     run_case(tape, st, &long_cfg())
 }
 
+/// a table and a literal matcher defined with the crate's macros `ops_factory!` and
+/// `literal_matcher_from_pattern!` (the documented way): same semantics as the run-time table
+fn macro_factory(tape: &[u32], st: &mut Stats) -> CaseResult {
+    use crate::term::{macro_table, MacroMatcher, MacroOps};
+    type FM = exmex::FlatEx<Term, MacroOps, MacroMatcher>;
+    type DM<'a> = exmex::DeepEx<'a, Term, MacroOps, MacroMatcher>;
+    let mut t = Tape::new(tape);
+    let table = macro_table();
+    let pool = gen_var_pool(&mut t, &table, 4, 5);
+    let tree = gen_tree(&mut t, &table, pool.names.len(), &TreeCfg { max_operands: 10, lit_pct: 40, unary_pct: 20, ..TreeCfg::default() });
+    let case = finish_case(&mut t, table, pool, tree, &RenderCfg { call_pct: 20, ..RenderCfg::default() });
+    if classify(&case, st) && st.nontrivial(&case.text) && st.want_sample() {
+        st.sample(case.describe());
+    }
+    let text: &str = &case.text;
+    let routes: [(&str, Box<dyn Fn() -> Result<(Vec<String>, Term), String> + '_>); 3] = [
+        ("FlatEx<Term, MacroOps, MacroMatcher>::parse", Box::new(|| { let e = ex_msg(FM::parse(text))?; Ok((e.var_names().to_vec(), ex_msg(e.eval(&case.vals))?)) })),
+        ("parse_wo_compile (macro table)", Box::new(|| { let e = ex_msg(FM::parse_wo_compile(text))?; Ok((e.var_names().to_vec(), ex_msg(e.eval(&case.vals))?)) })),
+        ("DeepEx (macro table)", Box::new(|| { let e = ex_msg(DM::parse(text))?; Ok((e.var_names().to_vec(), ex_msg(e.eval(&case.vals))?)) })),
+    ];
+    for (what, f) in routes.iter() {
+        let mk = |k: &str, msg: String| fail(&format!("C01/macro/{k}"), msg, case.describe());
+        match guard(|| f()) {
+            Err(p) => return Err(mk("panic", format!("{what} panics on `{text}`: {p}"))),
+            Ok(Err(e)) => return Err(mk("rejected", format!("{what} rejects well-formed `{text}`: {e}"))),
+            Ok(Ok((names, v))) => {
+                if names != case.names {
+                    return Err(mk("var-names", format!("{what} on `{text}`: variables {names:?}, expected {:?}", case.names)));
+                }
+                let vn = case.norm(&v);
+                if vn != case.refv {
+                    return Err(mk("wrong-value", format!("{what}: `{text}` evaluates to {vn:?}, documented semantics give {:?}", case.refv)));
+                }
+            }
+        }
+    }
+    Ok(())
+}
+
 /// the same semantics over the real default float table: all 34 operators, values compared with an
 /// independent evaluation of the tree (std primitives) at points inside the domain
 fn float_values(tape: &[u32], st: &mut Stats) -> CaseResult {
@@ -219,6 +258,11 @@ pub fn def() -> PropDef {
                 name: "term_long",
                 rule: "as term_small with 1-200 operands (left-deep, right-deep and random shapes), up to 20 variables; non-trivial additionally if >64 operands",
                 kind: Kind::Tape { len: 4000, quick: 3_000, thorough: 150_000, f: term_long },
+            },
+            SubCheck {
+                name: "macro_factory",
+                rule: "a fixed 12-operator table (dual + and -, two comparison operators with a common prefix, an alphabetic binary operator, unary functions, ASCII and Greek constants; unary and constant slots before the binary ones) defined with `ops_factory!`, literals matched by a `literal_matcher_from_pattern!` matcher; tree(1-10 operands) x rendering incl. call form; FlatEx folded/unfolded and DeepEx against the tree",
+                kind: Kind::Tape { len: 400, quick: 4_000, thorough: 300_000, f: macro_factory },
             },
             SubCheck {
                 name: "float_values",
